@@ -763,6 +763,7 @@ STATEMENTS: dict[str, str] = {
 	'last_block': 'break_last_block(render pre + open + render inner + close, kind) = (render pre, render inner) for all fragments pre, inner whose strings do not contain the brackets of that kind (other brackets and quotes allowed)',
 	'last_block_error': 'no opening or no closing bracket of the kind in the text: IndexError (ranges[-1])',
 	'decorator': 'DecoratorHelper._parse(path + "(" + render args + ")") = (path, dict built from exactly the top-level comma pieces of args, render args) for every path without "(" and every clean args fragment',
+	'decorator_dirty': 'with arbitrary simple strings in the arguments: path and join_args exact, the argument pieces are texts of fragments that rejoin (with top-level commas) to args - arguments may be merged, never cut inside a group or string',
 	'decorator_reassemble': 'each stored (key, value) puts its piece back together: label + "=" + value when the piece contains "=", else the piece under str(position)',
 	'decorator_positional_counterexample': 'a positional argument is NOT always stored under its position: f(g(k=1)) gives {"g(k": "1)"} (arg.count("=") also counts nested "=")',
 	'param / param_plain': 'Param.parse("t1 ... tn name [= default]") = (t1 ... tn joined by one blank, name, default.strip()) for non-empty clean tokens without top-level blank or "=" and a clean default without top-level "="',
